@@ -24,6 +24,7 @@ def run_case(args):
     caps = args['caps'] if not isinstance(args['caps'], int) else [args['caps']] * (len(c.lines) + 3)
     v = map_drv.check_map(sim, c, args['opts']['strip_forks'], args['opts']['c_reuse'], caps, args['caps_min'])
     v += map_drv.check_sched(sim, c, args['opts']['strip_forks'])
+    v += map_drv.check_phase_requires(sim, c, args['opts']['strip_forks'])
     return {'reproduced': bool(v), 'violated': v[:5]}
 
 
@@ -60,6 +61,7 @@ def part(tier, seed, which=('map', 'sched'), pid='C08'):
                     v += map_drv.check_sched(sim, c, opts['strip_forks'])
                 if 'map' in which and cmin == 1:
                     v += map_drv.check_live_hypotheses(sim, c, opts['strip_forks'])
+                v += map_drv.check_phase_requires(sim, c, opts['strip_forks'])
                 for clause, msg in v:
                     b.violation(f'bounded:{pid}:{clause}', f'{clause} on {sig} {opts}: {msg}', 'bounded.simops_drv:run_case', args,
                                 function='kyupy.sim.SimOps.__init__')
